@@ -297,6 +297,16 @@ class IsotropicNormal(ssm_impl_api.AbstractTreeNormal[IsotropicTreeFlatten]):
 IsotropicNormal.register_pytree_node()
 
 
+def _error_if_too_few_tcoeffs(ode, /, *, num_tcoeffs: int):
+    # Integer-array indexing clamps out-of-range indices silently,
+    # so verify that the state carries the constrained coefficients.
+    if max(ode.tcoeff_indices_output) >= num_tcoeffs:
+        msg = "The state carries too few Taylor coefficients for this ODE."
+        msg += f" Expected: at least {max(ode.tcoeff_indices_output) + 1}."
+        msg += f" Received: {num_tcoeffs}."
+        raise IndexError(msg)
+
+
 class IsotropicOdeTs0(ssm_impl_api.AbstractOde):
     """Isotropic ODE linearization via TS0 (zeroth-degree Taylor series: evaluate at the prior mean, no Jacobian)."""
 
@@ -304,6 +314,7 @@ class IsotropicOdeTs0(ssm_impl_api.AbstractOde):
         return None
 
     def linearize(self, rv, state, *, damp: float, t):
+        _error_if_too_few_tcoeffs(self.ode, num_tcoeffs=len(rv.mean))
         jet_coords = rv.mean[: self.ode.num_tcoeffs_in_args]
         fx_tree = self.ode.vector_field(jet_coords=jet_coords, t=t)
 
